@@ -62,6 +62,17 @@ def directed(rng):
             out.append(([f"file x.cab {c.hex()}", "new cab", "open i0 x.cab", "extract i0 h0 0 o", "close i0 h0", "destroy i0"], dict(family="lzx." + name)))
     except Exception as e:
         pass
+    # the same through the OAB entry point (LZX DELTA without reference data: the window is whatever init left there)
+    try:
+        from vgen import oab as _oab
+        for r0, name in [(0, "r0-zero"), (5, "r0-before-start"), (4, "r0-exact")]:
+            c = dt.Craft(17); c.header(); c.uncompressed(4, (r0, 1, 1), b"abcd"); c.block(1, 20)
+            c.trees(dt.lens_for(c.nmain, [0x62, 256 + 3, 256 + 8 + 3, 256 + 16 + 3]), [0] * 249)
+            c.m(256 + 3); c.m(256 + 8 + 3); c.m(256 + 16 + 3); c.m(256 + 3); c.frame_end()
+            f = _oab.full_file([{"data": bytes(24), "payload": b"\0\0" + c.done(), "lzx": True, "crc": 0}])
+            out.append(([f"file full.oab {f.hex()}", "new oab", "decompress i0 full.oab o", "destroy i0"], dict(family="oab.lzx-" + name)))
+    except Exception as e:
+        C.log(f"C11: oab r0 family failed: {e!r}")
     # KWAJ LZH: code-length type nibbles 4..15, and a stream that ends inside the tables
     hdr = b"KWAJ\x88\xf0\x27\xd1" + b"\x03\x00" + b"\x0e\x00" + b"\x00\x00"
     for t in (4, 7, 15):
@@ -120,6 +131,35 @@ def directed(rng):
                     kw = b"KWAJ\x88\xf0\x27\xd1" + struct.pack("<HHH", 0, 14 + len(body), flags) + body
                     out.append(([f"file f.kwj {kw.hex()}", "new kwaj", "open i0 f.kwj", "extract i0 h0 - o", "close i0 h0", "destroy i0"],
                                 dict(family="kwaj.name-field", flags=flags, nlen=nlen, term=term, tail=len(tail))))
+    # MSZIP blocks opening with a match into the previous block's history (what lies *before* window[0] is not history)
+    xb = list(S.mszip_cross_block_cases(rng))
+    for (label, cab, kw, plain) in xb[90:110] + [x for x in xb if x[0].startswith("run-across")]:
+        out.append(([f"file x.cab {cab.hex()}", "new cab", "open i0 x.cab", "extract i0 h0 0 o", "close i0 h0", "destroy i0"], dict(family="mszip.cross-block", label=label)))
+        out.append(([f"file f.kwj {kw.hex()}", "new kwaj", "open i0 f.kwj", "extract i0 h0 - o", "close i0 h0", "destroy i0"], dict(family="kwaj.mszip-cross-block", label=label)))
+    # well-formed LZX / Quantum folders whose compressed stream has its trailing zero byte left off (odd length, shorter
+    # than the input buffer): the reader's padding, not stale buffer contents, must complete the last word
+    for comp in (3, 2):
+        for _ in range(6):
+            try:
+                case = S.vgen_case(rng, "cab", "small", comp=comp, folders=1, parts=1, embed=False)
+            except Exception:
+                continue
+            nm = case["meta"]["order"][0]; cabb = bytearray(case["files"][nm])
+            import struct as _st
+            # the last CFDATA block: walk the blocks of folder 0
+            try:
+                flags = _st.unpack_from("<H", cabb, 30)[0]
+                if flags: continue
+                coff, nblk = _st.unpack_from("<IH", cabb, 36)
+                p = coff
+                for _b in range(nblk - 1): p += 8 + _st.unpack_from("<H", cabb, p + 4)[0]
+                csz = _st.unpack_from("<H", cabb, p + 4)[0]
+                if p + 8 + csz != len(cabb) or csz < 3 or cabb[-1] != 0: continue
+                cabb = cabb[:-1]; _st.pack_into("<H", cabb, p + 4, csz - 1); _st.pack_into("<I", cabb, p, 0); _st.pack_into("<I", cabb, 8, len(cabb))
+            except Exception:
+                continue
+            c2 = dict(case, files={nm: bytes(cabb)})
+            out.append((S.file_lines(c2) + S.generic_ops(c2, [("DECOMPBUF", 4096)]), dict(family="cab.trailing-zero-dropped", comp=comp)))
     # a member declared longer than what its folder's data blocks hold (the declared end still inside
     # num_blocks * 32768, so extract()'s up-front test lets it through): the decoder runs out of blocks
     # in the middle of the member; whatever it then hands to write() must not come from fresh memory
